@@ -52,15 +52,17 @@ func builtinNumberValueOf(call FunctionCall) Value {
 
 func builtinNumberToFixed(call FunctionCall) Value {
 	// 15.7.4: not generic - a TypeError unless the this value is a Number or a Number object.
-	call.thisClassObject(classNumberName)
+	// "this Number value" is the [[PrimitiveValue]], not ToNumber(this), which would
+	// run a valueOf/toString the script put on the Number object.
+	this := call.thisClassObject(classNumberName).primitiveValue()
 	precision := toIntegerFloat(call.Argument(0))
 	if 20 < precision || 0 > precision {
 		panic(call.runtime.panicRangeError("toFixed() precision must be between 0 and 20"))
 	}
-	if call.This.IsNaN() {
+	if this.IsNaN() {
 		return stringValue("NaN")
 	}
-	value := call.This.float64()
+	value := this.float64()
 	if math.Abs(value) >= 1e21 {
 		return stringValue(floatToString(value, 64))
 	}
@@ -93,11 +95,11 @@ func numberToFixed(value float64, digits int) string {
 
 func builtinNumberToExponential(call FunctionCall) Value {
 	// 15.7.4: not generic - a TypeError unless the this value is a Number or a Number object.
-	call.thisClassObject(classNumberName)
-	if call.This.IsNaN() {
+	this := call.thisClassObject(classNumberName).primitiveValue() // not ToNumber(this): see toFixed
+	if this.IsNaN() {
 		return stringValue("NaN")
 	}
-	number := call.This.float64()
+	number := this.float64()
 	if math.IsInf(number, 0) {
 		// ES5 15.7.4.6 steps 5-6: decided before the range check.
 		return stringValue(floatToString(number, 64))
@@ -117,15 +119,15 @@ func builtinNumberToExponential(call FunctionCall) Value {
 
 func builtinNumberToPrecision(call FunctionCall) Value {
 	// 15.7.4: not generic - a TypeError unless the this value is a Number or a Number object.
-	call.thisClassObject(classNumberName)
-	if call.This.IsNaN() {
+	this := call.thisClassObject(classNumberName).primitiveValue() // not ToNumber(this): see toFixed
+	if this.IsNaN() {
 		return stringValue("NaN")
 	}
 	value := call.Argument(0)
 	if value.IsUndefined() {
-		return stringValue(call.This.string())
+		return stringValue(this.string())
 	}
-	number := call.This.float64()
+	number := this.float64()
 	if math.IsInf(number, 0) {
 		// ES5 15.7.4.7 steps 6-7: decided before the range check.
 		return stringValue(floatToString(number, 64))
